@@ -26,7 +26,7 @@ def one(sid, tier, budget, all_props):
     try:
         cmd = [PY, os.path.join(VERIF, "tools", "seedtool.py"), "verify", wt, sd, meta["property"], "--tier", meta.get("tier", tier), "--budget", str(budget)]
         if all_props:
-            cmd.append("--all-props")
+            cmd += ["--all-props", "--other-budget", str(OTHER_BUDGET)]
         r = subprocess.run(cmd, stdout=subprocess.PIPE, stderr=subprocess.STDOUT, text=True)
         s = r.stdout
         out = json.loads(s[s.index("{"):])
@@ -41,6 +41,9 @@ def one(sid, tier, budget, all_props):
     meta["last_run"] = out
     json.dump(meta, open(os.path.join(sd, "meta.json"), "w"), indent=1)
     return sid, meta
+
+
+OTHER_BUDGET = 30
 
 
 def snapshot():
